@@ -312,6 +312,7 @@ def main(chk):
     nexp = 60 if chk.tier == "quick" else 1200
     stats = {"kern": 0, "mei": 0}
     wdocs, wctx = [], {}
+    mwdocs, mwctx = [], {}
     for k in range(nexp):
         fmt = "kern" if k % 2 == 0 else "mei"
         while True:
@@ -345,6 +346,11 @@ def main(chk):
                 else:
                     wdocs.append(d)
                     wctx[k] = (t0, open(fn).read(), chord_tie)
+            else:
+                d = gen_mei.parse_text(open(fn, "rb").read())
+                d["cid"] = k
+                mwdocs.append(d)
+                mwctx[k] = (t0, open(fn).read())
             sc2 = partitura.load_score(fn)
             t1 = sorted(x for p in sc2.parts for x in table(p))
         except Exception as ex:
@@ -376,6 +382,30 @@ def main(chk):
                 chk.violation("c2s", "export_kern.written_file.denotes_the_part", {"case": k2, "missing": [x for x in t0 if x not in den_t][:3],
                                                                                  "unexpected": [x for x in den_t if x not in t0][:3]},
                               replay={"file": written}, op="export_kern", tie_on_a_chord=bool(chord_tie))
+    if mwdocs:
+        path = os.path.join(tlc.workdir("c19/mwritten"), "cases.json")
+        with open(path, "w") as f:
+            json.dump(mwdocs, f)
+        r = run_trace(("MeiTrace", "c19/mwritten", path))
+        chk.add_mc("MeiTrace (files written by save_mei)", r)
+        if r.violated:
+            chk.violation("c2s", "export_mei.written_file.invariant:" + str(r.violated), {"trace": r.error_trace[:1200]}, op="export_mei")
+        got = {j["cid"]: j for j in uniq(r.json_lines())}
+        for k2, (t0, written) in sorted(mwctx.items()):
+            chk.count(1, validated=1)
+            j = got.get(k2)
+            if j is None:
+                if not r.violated:
+                    chk.violation("c2s", "export_mei.written_file.not_an_mei_document", {"case": k2}, replay={"file": written[:20000]}, op="export_mei")
+                continue
+            den_t = sorted((round(float(fr(s["on"])), 5), round(float(fr(s["dur"])), 5), s["step"], s["alter"], s["octave"], s["staff"]) for s in j["sounding"])
+            if j["bad"] or not j["ties_ok"]:
+                chk.violation("c2s", "export_mei.written_file.rules", {"case": k2, "rules_broken": j["bad"], "ties_join_equal_pitches": j["ties_ok"]},
+                              replay={"file": written[:20000]}, op="export_mei", rules=sorted(j["bad"]))
+            elif den_t != t0:
+                chk.violation("c2s", "export_mei.written_file.denotes_the_part", {"case": k2, "missing": [x for x in t0 if x not in den_t][:3],
+                                                                                "unexpected": [x for x in den_t if x not in t0][:3]},
+                              replay={"file": written[:20000]}, op="export_mei")
     chk.part("export_import", **stats)
     chk.assumptions += ["MEI: one part per staffDef, meter / key / clef on the staffDef as attributes or children, meter changes by scoreDef, layers filled completely",
                         "export/import: parts with one or two staves and voices whose written durations are single note values; MEI export without tuplets (the writer needs Tuplet objects)"]
